@@ -841,8 +841,63 @@ class C04(core.Check):
     prop_file = "theories/Properties/C04.v"
     extract_v = "Extract/C04X.v"
     allowed_axioms = set()
-    design_ref = "DESIGN.md section 5, C04"
+    design_ref = "DESIGN.md section 5, C04 (+ section 6 rows C04)"
     search_budget = {"quick": 60, "thorough": 300}
+    correspondence_name = "tokenised real output vs model tokens; Python reference terminal vs extracted TermRef"
+    technique = ("Coq theorems (row/loop invariants, refinement of the escape stream to a reference VT100/xterm "
+                 "interpreter) about a hand model of draw_screen/_last_row/_attrspec_to_escape; exact token-stream "
+                 "correspondence with the real Screen on every frame; independent Python terminal interpreter fed with "
+                 "the real bytes as oracle; HTML back-end judged by the oracle only")
+    level_text = ("Proved in Coq (Properties/C04.v, closed under the global context), for full-screen mode, every screen "
+                  "size >= 1x1, every attribute table / colour depth / bright-is-bold / bright-is-blink / BCE setting, "
+                  "UTF-8 canvases with characters of width 1 and 2 and narrow 8-bit encodings with charset flags None and "
+                  "'0': (sgr_means_visual_attribute) the SGR list of every AttrSpec sets exactly its visual attribute; "
+                  "(draw_paints) from ANY state where Screen object and terminal agree, the tokens of one draw_screen make "
+                  "the reference terminal show the canvas in every cell under visual equality, cursor shown at the canvas "
+                  "cursor or hidden, no scrolling, agreement re-established - covering the row diff, the EL shortcut and "
+                  "the bottom-right insert trick; (history_paints, history_keeps_sync) for every history of draws, redraws "
+                  "of the same canvas object, clear() over arbitrary terminal contents and size changes; "
+                  "(incremental_eq_full) incremental redraw and forced full repaint paint the same picture; "
+                  "(redraw_same_canvas_writes_nothing).  REFUTED with machine-checked witnesses replayed on the "
+                  "implementation (known findings): draw_paints_charset_u_full (IBMPC charset 'U' leaks into the next "
+                  "frame) and draw_paints_partial_full (partial display: _cy stale after a cursorless frame).  NOT proved, "
+                  "statement kept (draw_paints_any_text_full): zero-width and C0 control characters.  Correspondence/oracle "
+                  "only: everything above on the real code (exact token streams, all five colour depths, utf-8/ascii/"
+                  "iso8859-1, partial display, widgets), and the whole HTML back-end clause (text row by row, colours per "
+                  "run, <= 1 highlighted cell at the cursor).")
+    level_note = ("Trusted: Coq kernel; the hand-written model (tied by exact correspondence, not proved against Python); "
+                  "TermRef.v as the definition of 'VT100/xterm-compatible' for the modelled subset (cross-checked against a "
+                  "second, independently parsed Python interpreter on real and random streams); the harness decoding of "
+                  "bytes to (code point, width) with urwid's own width function; ExtrOcamlBasic + driver; Python oracle.  "
+                  "Assumes the terminal measures characters like urwid; fbterm, the Windows branch, wide (CJK double-byte) "
+                  "encodings and anything a physical terminal does beyond the modelled subset are not covered.")
+    rule = ("case = configuration (encoding, colour depth, bright-is-bold/blink, BCE, partial display + origin) + history of "
+            "frames (draw of explicit rows via FakeCanvas or TextCanvas / of a rendered widget tree, same-canvas redraw, "
+            "clear() with terminal scrambling, SIGWINCH + ack + new size, draw while resize pending, size/rows mismatch), "
+            "plus terminal-only random token streams; exhaustive single frames for every row over {a, blank, wide} x "
+            "{default, standout} up to 4 (thorough 5) columns as only/bottom/top row, BCE on/off; non-trivial = some "
+            "frame wrote tokens; distinct by hash of (case, outcome)")
+    trusted_base = [
+        "Coq 8.16.1 kernel (coqc; vm_compute only in closed examples and the two refutation witnesses)",
+        "hand-written Model/DrawScreen.v (validated by the exact token correspondence on every frame, not proved against Python)",
+        "Model/TermRef.v as the meaning of a VT100/xterm-compatible terminal for the modelled subset "
+        "(compared cell by cell with the independently parsed Python RefTerm on real and random streams)",
+        "Model/PaintSpec.v: visual cell equality and the AttrSpec -> visible attribute table as the meaning of 'shows the canvas'",
+        "harness decoding of canvas bytes to (code point, column width) using urwid.str_util.get_char_width, attribute "
+        "interning by Python equality, the reading of AttrSpec properties",
+        "extraction: ExtrOcamlBasic only; tools/driver/driver.ml",
+        "Python oracle (RefTerm, expectations, HTML parser) in harness/props/c04.py",
+    ]
+    assumptions = [
+        "the terminal measures character widths like urwid (str_util.get_char_width); combining characters are ignored by the reference terminal",
+        "canvas rows are exactly maxcol columns wide and runs are non-empty; canvas text has no C0 control characters "
+        "(urwid measures them as zero-width but paints '?': observed, not judged); ascii mode carries only ASCII bytes",
+        "under UTF-8 the canvas carries no charset flags",
+        "palette entries are registered before drawing and terminal properties are changed only through set_terminal_properties",
+        "partial display: the lines at and below the display origin are blank when the screen starts and the used rows fit on the terminal; "
+        "for rows that are blank in the canvas only the text is compared",
+        "fbterm, the Windows branch, double-byte (CJK) encodings are not covered",
+    ]
 
     # ---------- implementation ----------
     _memo = (None, None)
@@ -1514,6 +1569,10 @@ class C04(core.Check):
         return any(f["toks"] for f in res["frames"])
 
     def signature(self, case, msg):
+        for tag in ("[partial display after a frame without cursor]", "[IBMPC charset left on by an earlier frame]",
+                    "raised KeyError for an undefined palette name"):
+            if tag in msg:
+                return tag
         msg = re.sub(r" shows .* canvas has .* \[(\w+)\]$", r" differs [\1]", msg)
         msg = re.sub(r"text '.*' differs from the canvas text '.*'", "text differs", msg)
         return re.sub(r"\(\d+, ?\d+\)|\d+", "N", msg)[:160]
